@@ -827,11 +827,15 @@ class ExcludeRegionState(object):  # pylint: disable=too-many-instance-attribute
             "G92 E{e}".format(e=self.position.E_AXIS.nativeToLogical())
         )
 
-        newZ = self.position.Z_AXIS.nativeToLogical()
-        oldZ = self.lastPosition.Z_AXIS.nativeToLogical()
+        # Compare the native Z positions (the logical values may be expressed in different units
+        # or offsets if those changed while excluding)
+        position = self.position
+        lastPosition = self.lastPosition
+        newZ = position.Z_AXIS.current
+        oldZ = lastPosition.Z_AXIS.current
         moveZcmd = "G0 F{f} Z{z}".format(
             f=self.feedRate / self.feedRateUnitMultiplier,
-            z=newZ
+            z=self._exitCoordinate(position.Z_AXIS, lastPosition.Z_AXIS)
         )
 
         if (newZ > oldZ):
@@ -844,8 +848,8 @@ class ExcludeRegionState(object):  # pylint: disable=too-many-instance-attribute
             # Use G0 ("fast" linear move) as this is a non-extruding move
             "G0 F{f} X{x} Y{y}".format(
                 f=self.feedRate / self.feedRateUnitMultiplier,
-                x=self.position.X_AXIS.nativeToLogical(),
-                y=self.position.Y_AXIS.nativeToLogical()
+                x=self._exitCoordinate(position.X_AXIS, lastPosition.X_AXIS),
+                y=self._exitCoordinate(position.Y_AXIS, lastPosition.Y_AXIS)
             )
         )
 
@@ -862,6 +866,30 @@ class ExcludeRegionState(object):  # pylint: disable=too-many-instance-attribute
         )
 
         return returnCommands
+
+    @staticmethod
+    def _exitCoordinate(axis, lastAxis):
+        """
+        Compute the coordinate to send for moving an axis back to its tracked position.
+
+        Parameters
+        ----------
+        axis : AxisPosition
+            The current (tracked) state of the axis.
+        lastAxis : AxisPosition
+            The state of the axis before the excluded region was entered, which is where the
+            printer physically still is.
+
+        Returns
+        -------
+        float
+            The absolute logical position when the axis is in absolute mode, otherwise the
+            relative distance from the pre-exclusion position, in logical units.
+        """
+        if (axis.absoluteMode):
+            return axis.nativeToLogical()
+
+        return (axis.current - lastAxis.current) / axis.unitMultiplier
 
     def _processExtendedGcodeEntry(self, mode, cmd, gcode):
         """
